@@ -31,7 +31,7 @@ BOOM = '(1 / 0 == 0)'     # boolean-typed operand whose evaluation fails: observ
 
 
 def gen_x1(thorough):
-    pool = [lit(x) for x in ([0, 2, 7, True, False, 'a', '', ['a'], [2], {'a': 2}] if thorough else [2, True, 'a', ['a']])]
+    pool = [lit(x) for x in ([0, 2, 7, True, False, 'a', '', ['a'], [2], {'a': 2}] if thorough else [2, True, 'a'])]
     pool.append(BOOM)
     for op1 in OPS:
         for op2 in OPS:
@@ -499,20 +499,31 @@ def tier_b(ck, succ_all, fail_all):
                 nm = 'p%dt%d' % (n, sp_i)
                 items.append((nm, 'ok', {'meson.build': "project('%s')\nsubdir('sub')\n%s" % (nm, tail), 'sub/meson.build': head}, expect, text))
     nfail = 0
-    cap = ck.q(1500, 20000)
-    for fam, text in fail_all[:cap]:
+    cap = ck.q(600, 20000)
+    # round-robin over families so that the cap (quick tier) keeps representatives of every family
+    byfam = {}
+    for fam, text in fail_all:
+        byfam.setdefault(fam, []).append((fam, text))
+    rr = []
+    for tup in itertools.zip_longest(*[byfam[f] for f in sorted(byfam)]):
+        rr.extend(x for x in tup if x is not None)
+    for fam, text in rr[:cap]:
         n += 1
         nfail += 1
         name = 'f%d' % n
         items.append((name, 'fail', {'meson.build': "project('%s')\n%s" % (name, text)}, None, text))
-    B = 120
-    queue = [items[i:i + B] for i in range(0, len(items), B)]
+    B, BF = 120, 6
+    oks = [it for it in items if it[1] == 'ok']
+    fls = [it for it in items if it[1] == 'fail']
+    # programs expected to fail may abort the whole setup (InvalidCode is never contained by required: false), which
+    # costs one more round for the rest of their batch: keep those batches small
+    queue = [oks[i:i + B] for i in range(0, len(oks), B)] + [fls[i:i + BF] for i in range(0, len(fls), BF)]
     rounds = 0
     setups = 0
     checked_vals = 0
     checked_fail = 0
     abort_fail = 0
-    while queue and rounds < 60:
+    while queue and rounds < 200:
         rounds += 1
         jobs = [(rounds * 100000 + bi, [(nm, kd, fl, ex) for nm, kd, fl, ex, tx in b]) for bi, b in enumerate(queue)]
         nxt = []
